@@ -28,6 +28,7 @@ type SchedWorld struct {
 	Pubs   map[string][]int64
 	PubsLo map[string][]int64
 
+	Snap    *gkvlite.Store // optional snapshot taken during setup (contents = V0 of each collection)
 	Reads   []ReadRec
 	Flushes []FlushRec
 	Viols   []Viol
@@ -373,6 +374,32 @@ func (s *SchedWorld) RSnapshot(name string) {
 	s.Reads = append(s.Reads, ReadRec{Thread: ThreadID(), Coll: name, Kind: "Snap", Start: t0, End: t1, Result: sb.String()})
 	s.mu.Unlock()
 	sn.Close()
+}
+
+// SeqSnapshotAndReplace takes a snapshot and then replaces collection name by
+// SetCollection on the same name (new handle, same items).
+func (s *SchedWorld) SeqSnapshotAndReplace(name string) {
+	BeginOp("setup")
+	s.Snap = s.St.Snapshot()
+	s.Colls[name] = s.St.SetCollection(name, nil)
+}
+
+// RSnapGet reads key through the setup snapshot: it must always see V0.
+func (s *SchedWorld) RSnapGet(name string, key []byte) {
+	BeginOp("SnapGet")
+	c := s.Snap.GetCollection(name)
+	v, err := c.Get(key)
+	want := "nil"
+	if it, ok := s.Versions[name][0].Items[string(key)]; ok {
+		want = fmt.Sprintf("%q", it.Val)
+	}
+	got := "nil"
+	if v != nil {
+		got = fmt.Sprintf("%q", v)
+	}
+	if err != nil || got != want {
+		s.Fail("concurrent", "snapshot-read", "Get(%s) through the snapshot returned %s (err %v), the snapshot holds %s", key, got, err, want)
+	}
 }
 
 // FFlush is the flusher's operation.
